@@ -86,6 +86,18 @@ func (d *Dependency) interpolate(properties map[string]string) bool {
 	ok5 := d.Type.interpolate(properties)
 	ok6 := d.Classifier.interpolate(properties)
 	ok7 := d.Optional.interpolate(properties)
+	// As in Maven, placeholders in exclusions are interpolated too; an
+	// unresolved one stays in place and does not invalidate the dependency.
+	if len(d.Exclusions) > 0 {
+		// Do not write to a slice that other copies of d may share.
+		exclusions := make([]Exclusion, len(d.Exclusions))
+		copy(exclusions, d.Exclusions)
+		for i := range exclusions {
+			exclusions[i].GroupID.interpolate(properties)
+			exclusions[i].ArtifactID.interpolate(properties)
+		}
+		d.Exclusions = exclusions
+	}
 	return ok1 && ok2 && ok3 && ok4 && ok5 && ok6 && ok7
 }
 
